@@ -23,6 +23,36 @@ def untemper(y):
     for _ in range(3): x = y ^ (x >> 11)
     return x & 0xffffffff
 
+M64 = (1 << 64) - 1
+def temper64(x):
+    x ^= (x >> 29) & 0x5555555555555555
+    x ^= (x << 17) & 0x71D67FFFEDA60000 & M64
+    x ^= (x << 37) & 0xFFF7EEE000000000 & M64
+    x ^= x >> 43
+    return x & M64
+
+def untemper64(y):
+    x = y
+    for _ in range(3): x = y ^ (x >> 43)          # invert x ^= x >> 43
+    y = x & M64; x = y
+    for _ in range(3): x = y ^ ((x << 37) & 0xFFF7EEE000000000)
+    y = x & M64; x = y
+    for _ in range(5): x = y ^ ((x << 17) & 0x71D67FFFEDA60000)
+    y = x & M64; x = y
+    for _ in range(4): x = y ^ ((x >> 29) & 0x5555555555555555)
+    return x & M64
+
+assert all(temper64(untemper64(v)) == v for v in (0, 1, M64, 1 << 63, 0x123456789abcdef0, M64 - 1, 0x5555555555555555))
+
+def roll_boundary_words(n, bits, rng):
+    """raw words around the accept/reject boundaries of a roll of n: v*f-1, v*f, v*f+1 for v in {1, n-1, n}, 0, max"""
+    W = (1 << bits) - 1
+    f = W // n
+    c = [0, W, W - 1]
+    for v in (1, max(1, n - 1), n, rng.randrange(1, n + 1)):
+        c += [min(W, max(0, v * f + d)) for d in (-1, 0, 1)]
+    return c
+
 assert all(temper(untemper(v)) == v for v in (0, 1, 0xffffffff, 0x80000000, 0x12345678, 0xfffffffe))
 
 def dbits(x):
@@ -63,6 +93,10 @@ class C09(Prop):
             {"name": "seedzero", "ops": ["seedzero32", "seedzero64"]},
             {"name": "fchoose-trailing-zero-maxroll", "ops": ["new32 seed=42", "pokeraw w=%d" % untemper(0xffffffff),
                 "fchoose p=" + ",".join(f32bits(f32round(c / 100.0)) for c in (45, 35, 15, 5, 0, 0)), "u32 k=3"]},
+            {"name": "roll-boundary", "ops": ["new32 seed=1", "pokeraw w=%d" % untemper(10 * (0xffffffff // 10)), "roll n=10",
+                "pokeraw w=%d" % untemper(10 * (0xffffffff // 10) - 1), "roll n=10", "pokeraw w=%d" % untemper(0xffffffff // 10), "roll n=10", "u32 k=2"]},
+            {"name": "roll64-boundary", "ops": ["new64 seed=1", "pokeraw64 w=%d" % untemper64(10 * (M64 // 10)), "roll64 n=10",
+                "pokeraw64 w=%d" % untemper64(10 * (M64 // 10) - 1), "roll64 n=10", "u64 k=2"]},
             {"name": "dchoose-zero-roll", "ops": ["new32 seed=7", "pokeraw w=%d" % untemper(0), "dchoose p=" + ",".join(dbits(x) for x in (0.0, 0.5, 0.5)), "random"]},
             {"name": "fast", "ops": ["newfast seed=1", "u32 k=3", "roll n=6", "init seed=1", "u32 k=3"]},
             {"name": "mt64", "ops": ["new64 seed=42", "u64 k=1", "u64 k=311", "u64 k=1", "u64 k=1000", "roll64 n=18446744073709551615", "dbl64", "dblclosed", "dblopen"]},
@@ -89,7 +123,10 @@ class C09(Prop):
                     if r < 0.35:
                         ops.append("u32 k=%d" % rng.choice([1, 2, 5, 100, 623, 624, 625, 1248, rng.randrange(1, 3000), rng.randrange(1, 100000 if ctx.tier != "quick" or c < 10 else 5000)]))
                     elif r < 0.5:
-                        ops.append("roll n=%d" % rng.choice([1, 2, 3, 6, 7, 10, 255, 256, 1000, 65537, 2**31 - 1, 2**30 + 1, rng.randrange(1, 2**31)]))
+                        nn = rng.choice([1, 2, 3, 6, 7, 10, 19, 255, 256, 389, 1000, 65537, 2**31 - 1, 2**30 + 1, 1898087491, rng.randrange(1, 2**31)])
+                        if ops[0].startswith("new32") and rng.random() < 0.6:   # roll with the next raw word on an accept/reject boundary
+                            ops.append("pokeraw w=%d" % untemper(rng.choice(roll_boundary_words(nn, 32, rng))))
+                        ops.append("roll n=%d" % nn)
                     elif r < 0.6:
                         ops.append("random")
                     elif r < 0.65:
@@ -139,7 +176,10 @@ class C09(Prop):
                     if r < 0.4:
                         ops.append("u64 k=%d" % rng.choice([1, 2, 311, 312, 313, 624, rng.randrange(1, 3000), rng.randrange(1, 50000 if ctx.tier != "quick" or c < 10 else 3000)]))
                     elif r < 0.6:
-                        ops.append("roll64 n=%d" % rng.choice([1, 2, 3, 6, 2**32, 2**63, 2**64 - 1, 2**63 + 1, rng.randrange(1, 2**64)]))
+                        nn = rng.choice([1, 2, 3, 6, 10, 2**32, 2**63, 2**64 - 1, 2**63 + 1, rng.randrange(1, 2**64), rng.randrange(1, 2**20)])
+                        if rng.random() < 0.6:
+                            ops.append("pokeraw64 w=%d" % untemper64(rng.choice(roll_boundary_words(nn, 64, rng))))
+                        ops.append("roll64 n=%d" % nn)
                     elif r < 0.68:
                         nn = rng.choice([1, 2, 5, 14, 100, 1000, rng.randrange(1, 5000), rng.randrange(1, 10**6), 2**40])
                         mm = rng.choice([1, 1, 2, min(nn, 13), min(nn, 50), nn if nn < 3000 else 100, rng.randrange(1, min(nn, 2000) + 1)])
